@@ -32,6 +32,7 @@ DECIDES = (
     "a propagated chop carries the resolved count and the hex line prints axis counts 0,1,2 (C01.COUNT-CARRIED); "
     "the neighbour and coincidence relations are registered symmetrically over all 3x3 axes / 12x12 wires and "
     "accept either vertex order (C01.NEIGHBOUR-SYMMETRY, C01.COINCIDENCE-SYMMETRY)."
+    ' The whole chain BlockList.check_consistency -> Block -> Axis -> wire manager is also run abstractly on a symbolic two-block model: a count conflict inside a block or with a coincident wire of another block is refused whatever else holds (uniform gradings shared by the four wires, own chops, either manager class), and an anti-aligned multigraded neighbour with the same total count is accepted (part of C01.CONSISTENCY-REACH); AXIS_PAIRS lists the four wires of a direction in the order blockMesh reads edgeGrading (C01.AXIS-TABLE).'
 )
 NOT_DECIDED = "that counts are in fact equal after propagation for every topology (runtime propagation over block graphs)."
 ASSUMPTIONS = ["write_vtk (debug output) is the one writer allowed before grade(), as the source comment states"]
